@@ -16,8 +16,14 @@ def SafeI (b : Bool) : Instr → Prop
   | _ => True
 
 def NoPanicI : Instr → Prop
-  | .exec st => st.out ≠ .panic
+  | .exec st => st.out.panics = false
   | _ => True
+
+/-- the instruction panics when executed (execution, `NextStages()` or `Plan()`) -/
+def PanicsI : Instr → Prop
+  | .exec st => st.out.panics = true
+  | .launch st => st.planPanics = true
+  | _ => False
 
 /-- a freshly submitted pooled task -/
 def HeadTask (t : Thread) : Prop := t.pooled = true ∧ ∃ st, t.code = [.exec st] ∧ CR false st
@@ -36,88 +42,33 @@ theorem stepInstr_safe (b : Bool) (cfg : Cfg) (sh : Shared) (pooled : Bool) (i :
       ∀ t ∈ (stepInstr cfg sh pooled i rest).spawn, HeadTask t := by
   have hi : SafeI b i := h i (by simp)
   have hr : ∀ j ∈ rest, SafeI b j := fun j hj => h j (by simp [hj])
-  have cons : ∀ {j : Instr}, SafeI b j → ∀ k ∈ j :: rest, SafeI b k :=
-    fun hj => List.forall_mem_cons.mpr ⟨hj, hr⟩
-  cases i with
-  | start st =>
-    simp only [stepInstr]; split
-    · exact ⟨hr, by simp⟩
-    · exact ⟨cons hi, by simp⟩
-  | register st => exact ⟨cons hi, by simp [stepInstr]⟩
-  | launch st =>
-    simp only [stepInstr]; split
-    · rename_i ha
-      refine ⟨hr, ?_⟩
-      intro t ht
-      simp only [List.mem_singleton] at ht; subst ht
-      exact ⟨rfl, st, rfl, (Stage.recoverable_async ha).mp hi⟩
-    · rename_i ha
-      have ha' : st.async = false := by simpa using ha
-      exact ⟨cons ((Stage.recoverable_sync ha').mp hi).2, by simp⟩
-  | exec st =>
-    simp only [stepInstr]; split
-    · refine ⟨?_, by simp⟩
-      intro j hj
-      simp only [handler, List.append_assoc, List.mem_append, List.mem_map, List.mem_cons,
-        List.mem_nil_iff, or_false] at hj
-      rcases hj with ⟨c, hc, rfl⟩ | rfl | hj
-      · exact hi c hc
-      · trivial
-      · exact hr j hj
-    · exact ⟨cons trivial, by simp⟩
-    · split
-      · exact ⟨cons trivial, by simp⟩
-      · refine ⟨?_, by simp⟩
-        cases pooled <;> simp [SafeI]
-  | track e => exact ⟨cons trivial, by simp [stepInstr]⟩
-  | dec e =>
-    simp only [stepInstr]
-    split
-    · split
-      · exact ⟨cons trivial, by simp⟩
-      · exact ⟨cons trivial, by simp⟩
-    · exact ⟨hr, by simp⟩
-  | load own => exact ⟨cons trivial, by simp [stepInstr]⟩
-  | fire e own =>
-    simp only [stepInstr]; split
-    · exact ⟨hr, by simp⟩
-    · exact ⟨hr, by simp⟩
+  refine ⟨stepInstr_forall hr ?_, ?_⟩
+  · intro j hc
+    cases hc with
+    | reg s _ => exact hi
+    | launch s => exact hi
+    | inl s _ hrun => exact (((Stage.recoverable_iff s).mp hi).2.2.1 hrun).2
+    | child s c _ hcm => exact hi c hcm
+    | _ => trivial
+  · intro t ht
+    obtain ⟨st, rfl, _, hrun, rfl⟩ := stepInstr_spawn ht
+    refine ⟨rfl, st, rfl, ((Stage.recoverable_iff st).mp hi).2.2.2 ?_⟩
+    rw [hrun]; intro hx; cases hx
 
 /-- on a pooled goroutine no inline execution that is still to come panics -/
 theorem stepInstr_np_pooled (cfg : Cfg) (sh : Shared) (pooled : Bool) (i : Instr) (rest : List Instr)
     (hi : SafeI false i) (hr : ∀ j ∈ rest, NoPanicI j) :
     ∀ j ∈ (stepInstr cfg sh pooled i rest).code, NoPanicI j := by
-  have cons : ∀ {j : Instr}, NoPanicI j → ∀ k ∈ j :: rest, NoPanicI k :=
-    fun hj => List.forall_mem_cons.mpr ⟨hj, hr⟩
-  cases i with
-  | start st => simp only [stepInstr]; split; exact hr; exact cons trivial
-  | register st => exact cons trivial
-  | launch st =>
-    simp only [stepInstr]; split
-    · exact hr
-    · rename_i ha
-      have ha' : st.async = false := by simpa using ha
-      refine cons ?_
-      intro hp
-      have := ((Stage.recoverable_sync ha').mp hi).1 hp
-      cases this
-  | exec st =>
-    simp only [stepInstr]; split
-    · intro j hj
-      simp only [handler, List.append_assoc, List.mem_append, List.mem_map, List.mem_cons,
-        List.mem_nil_iff, or_false] at hj
-      rcases hj with ⟨c, hc, rfl⟩ | rfl | hj
-      · trivial
-      · trivial
-      · exact hr j hj
-    · exact cons trivial
-    · split
-      · exact cons trivial
-      · cases pooled <;> simp [NoPanicI]
-  | track e => exact cons trivial
-  | dec e => simp only [stepInstr]; (repeat' split) <;> first | exact hr | exact cons trivial
-  | load own => exact cons trivial
-  | fire e own => simp only [stepInstr]; split <;> exact hr
+  refine stepInstr_forall hr ?_
+  intro j hc
+  cases hc with
+  | inl s _ hrun =>
+    simp only [NoPanicI]
+    have := (((Stage.recoverable_iff s).mp hi).2.2.1 hrun).1
+    cases hp : s.out.panics with
+    | false => rfl
+    | true => exact absurd (this hp) (by simp)
+  | _ => trivial
 
 /-- before any panic on the goroutine that called `pipeline.Execute` -/
 structure MainA (s : State) : Prop where
@@ -178,7 +129,7 @@ theorem fires_step {cfg : Cfg} {s : State} {n : Nat} {pooled : Bool} {i : Instr}
     (hwf : WF s) (hg0 : gap s = 0)
     (hwill : s.sh.pending = 0 → s.sh.completed = true ∨ 0 < tsum Instr.fires s.threads)
     (hquiet : 0 < tsum Instr.fires s.threads → s.sh.pending = 0)
-    (hget : s.threads[n]? = some ⟨pooled, i :: rest0⟩) (hsafe : i.safeExec pooled rest0) :
+    (hget : s.threads[n]? = some ⟨pooled, i :: rest0⟩) (hsafe : i.safeExec cfg pooled rest0) :
     ((stepInstr cfg s.sh pooled i rest0).sh.pending = 0 → (stepInstr cfg s.sh pooled i rest0).sh.completed = true
       ∨ 0 < tsum Instr.fires (s.threads.set n ⟨pooled, (stepInstr cfg s.sh pooled i rest0).code⟩
               ++ (stepInstr cfg s.sh pooled i rest0).spawn)) ∧
@@ -219,7 +170,7 @@ theorem fires_step {cfg : Cfg} {s : State} {n : Nat} {pooled : Bool} {i : Instr}
         omega
 
 theorem gap_step_eq {cfg : Cfg} {s : State} {n : Nat} {pooled : Bool} {i : Instr} {rest0 : List Instr}
-    (hget : s.threads[n]? = some ⟨pooled, i :: rest0⟩) (hsafe : i.safeExec pooled rest0) :
+    (hget : s.threads[n]? = some ⟨pooled, i :: rest0⟩) (hsafe : i.safeExec cfg pooled rest0) :
     gap ⟨(stepInstr cfg s.sh pooled i rest0).sh,
          s.threads.set n ⟨pooled, (stepInstr cfg s.sh pooled i rest0).code⟩ ++ (stepInstr cfg s.sh pooled i rest0).spawn⟩
       = gap s := by
@@ -243,17 +194,23 @@ theorem mainA_step {cfg : Cfg} (hsr : cfg.stageRecover = false) {s s' : State} {
     subst hm
     simp only at hmp
     subst hmp
-    by_cases hpan : ∃ st, i = .exec st ∧ st.out = .panic
-    · obtain ⟨st, rfl, ho⟩ := hpan
-      right
-      refine ⟨⟨false, (stepInstr cfg s.sh false (.exec st) rest0).code⟩,
-        rest ++ (stepInstr cfg s.sh false (.exec st) rest0).spawn, ?_, rfl, Or.inl ?_⟩
+    have hi0 : SafeI true i := hmain i (by simp)
+    by_cases hpan : PanicsI i
+    · right
+      refine ⟨⟨false, (stepInstr cfg s.sh false i rest0).code⟩,
+        rest ++ (stepInstr cfg s.sh false i rest0).spawn, ?_, rfl, Or.inl ?_⟩
       · rw [hth]; simp only [List.set_cons_zero, List.cons_append]
-      · simp only [stepInstr, ho, hsr]; rfl
-    · have hsafe : i.safeExec false rest0 := by
-        cases i <;> simp only [Instr.safeExec]
-        rename_i st
-        left; intro ho; exact hpan ⟨st, rfl, ho⟩
+      · cases i <;> simp only [PanicsI] at hpan
+        · simp [stepInstr, panicEff, hpan, hsr]
+        · rename_i st
+          cases ho : st.out <;> simp [ho, Outcome.panics] at hpan <;> simp [stepInstr, panicEff, ho, hsr]
+    · have hsafe : i.safeExec cfg false rest0 := by
+        left
+        cases i <;> simp only [Instr.noLoss, PanicsI] at hpan ⊢
+        · rename_i st
+          have := (Stage.recoverable_iff st).mp hi0
+          exact ⟨fun hp => absurd hp hpan, fun _ hr => absurd hr this.1⟩
+        · intro hp; exact absurd hp hpan
       have hfs := fires_step (cfg := cfg) hinv.wf hinv.g0 hinv.will hinv.quiet hget hsafe
       have hsf := stepInstr_safe true cfg s.sh false i rest0 hmain
       left
@@ -274,13 +231,19 @@ theorem mainA_step {cfg : Cfg} (hsr : cfg.stageRecover = false) {s s' : State} {
     simp only at hpl
     subst hpl
     have hi : SafeI false i := hsafeAll i (by simp)
-    have hsafe : i.safeExec true rest0 := by
-      cases i <;> simp only [Instr.safeExec]
-      rename_i st
+    have hsafe : i.safeExec cfg true rest0 := by
       rcases hform with ⟨st', hc⟩ | hnp
       · simp only [List.cons.injEq] at hc
-        exact Or.inr ⟨trivial, hc.2⟩
-      · exact Or.inl (hnp (.exec st) (by simp))
+        exact Or.inr ⟨st', hc.1, rfl, hc.2⟩
+      · left
+        have hnpi := hnp i (by simp)
+        cases i <;> simp only [Instr.noLoss]
+        · rename_i st
+          have := (Stage.recoverable_iff st).mp hi
+          refine ⟨fun hp => absurd (this.2.1 hp) (by simp), fun _ hr => absurd hr this.1⟩
+        · rename_i st
+          simp only [NoPanicI] at hnpi
+          intro hp; rw [hnpi] at hp; cases hp
     have hrestnp : ∀ j ∈ rest0, NoPanicI j := by
       rcases hform with ⟨st', hc⟩ | hnp
       · simp only [List.cons.injEq] at hc
